@@ -272,6 +272,26 @@ def check_raise_catch(ctx):
                     caught |= set(ts)
                     handlers.append(h)
             cur, anc = anc, pm.get(anc)
+        # a decorator of the program whose wrapper calls the function
+        # inside a try covers every site of the function
+        w = prog.wrapper_of(f)
+        if w is not None:
+            for tnode in ast.walk(w[0]):
+                if isinstance(tnode, ast.Try) and any(
+                        isinstance(c, ast.Call) and isinstance(
+                            c.func, ast.Name) and c.func.id == w[1]
+                        for b in tnode.body for c in ast.walk(b)):
+                    for h in tnode.handlers:
+                        ht = h.type
+                        if len(w) > 2 and isinstance(ht, ast.Name) and \
+                                ht.id in w[2]:
+                            ht = w[2][ht.id]
+                        ts = ['builtin:BaseException'] if ht is None else [
+                            prog.resolve(f.module, x) for x in (
+                                ht.elts if isinstance(ht, ast.Tuple)
+                                else [ht])]
+                        caught |= set(ts)
+                        handlers.append(h)
         missing = [r for r in raised if not any(
             r == c or exc_subclass(r, c) for c in caught)]
         ctx.ob('C03.RAISE-CATCH', not missing, ctx.where(f.module, n), f.qual,
@@ -422,6 +442,15 @@ def check_default_src(ctx):
             continue
         if given and not given[-1] and U(v).endswith(opt_tail):
             continue
+        opaque = [n for c in p.conds if isinstance(c.expr, ast.AST)
+                  for n in ast.walk(c.expr)
+                  if isinstance(n, ast.Call) and isinstance(
+                      n.func, ast.Name) and n.func.id.startswith('SYM_f')]
+        if opaque or (isinstance(v, ast.Name) and v.id.startswith('SYM_e')):
+            raise AnalysisError(
+                'the constructor picks the default rule through a local '
+                'function object / a loop over computed candidates (line '
+                '%d): which source wins is not read' % e.line)
         bad = bad or (p, e, 'self.default_rule = %s on path %s' % (
             U(v)[:60], p.cond_text()[-120:]))
     ok = bad is None and nst > 0
